@@ -1,0 +1,154 @@
+//go:build verif
+
+package patch
+
+// Exports for the verification harness (only with the "verif" build tag):
+// internal packages cannot be imported from outside this module.
+
+import (
+	"fmt"
+	"go/token"
+	"hash/fnv"
+	"reflect"
+	"sort"
+
+	"github.com/uber-go/gopatch/internal/parse/section"
+	"github.com/uber-go/gopatch/internal/pgo/augment"
+	"github.com/uber-go/gopatch/internal/vhook"
+)
+
+// VerifSetSink installs an in-process sink for hook events.
+func VerifSetSink(f func(rec map[string]any)) { vhook.SetSink(f) }
+
+// VerifSetGate installs the scheduler callback used by the gates in Apply.
+func VerifSetGate(f func(point string)) { vhook.SetGate(f) }
+
+// VerifLine is one line of a section with its position in the patch file.
+type VerifLine struct {
+	Line, Col int
+	Text      string
+}
+
+// VerifChange is what the sectioner produced for one change.
+type VerifChange struct {
+	Name        string
+	HeaderLine  int
+	HeaderCol   int
+	AtLine      int
+	Comments    []string
+	Meta, Patch []VerifLine
+}
+
+// VerifSplit runs the sectioner on a patch file.
+func VerifSplit(filename string, src []byte) ([]VerifChange, error) {
+	fset := token.NewFileSet()
+	prog, err := section.Split(fset, filename, src)
+	var out []VerifChange
+	for _, c := range prog {
+		vc := VerifChange{Name: c.Name, Comments: c.Comments}
+		if c.HeaderPos.IsValid() {
+			p := fset.Position(c.HeaderPos)
+			vc.HeaderLine, vc.HeaderCol = p.Line, p.Column
+		}
+		if c.AtPos.IsValid() {
+			vc.AtLine = fset.Position(c.AtPos).Line
+		}
+		for _, l := range c.Meta {
+			p := fset.Position(l.Pos())
+			vc.Meta = append(vc.Meta, VerifLine{Line: p.Line, Col: p.Column, Text: string(l.Text)})
+		}
+		for _, l := range c.Patch {
+			p := fset.Position(l.Pos())
+			vc.Patch = append(vc.Patch, VerifLine{Line: p.Line, Col: p.Column, Text: string(l.Text)})
+		}
+		out = append(out, vc)
+	}
+	return out, err
+}
+
+// VerifAugment runs the pgo augmenter on one side of a patch.
+func VerifAugment(src []byte) (augmented string, kinds []string, err error) {
+	out, augs, _, err := augment.Augment(src)
+	for _, a := range augs {
+		kinds = append(kinds, fmt.Sprintf("%T@%d", a, a.Start()))
+	}
+	return string(out), kinds, err
+}
+
+// VerifProgramHash is a deep structural hash of the compiled program behind a
+// parsed patch (all exported and unexported fields, maps in key order,
+// pointers followed). It changes iff some part of the compiled matchers /
+// replacers / association maps is written after compilation.
+func VerifProgramHash(f *File) string {
+	h := fnv.New64a()
+	seen := map[uintptr]bool{}
+	var walk func(v reflect.Value, depth int)
+	walk = func(v reflect.Value, depth int) {
+		if depth > 200 {
+			return
+		}
+		switch v.Kind() {
+		case reflect.Invalid:
+			h.Write([]byte("<nil>"))
+		case reflect.Ptr:
+			if v.IsNil() {
+				h.Write([]byte("nilptr"))
+				return
+			}
+			if seen[v.Pointer()] {
+				h.Write([]byte("seen"))
+				return
+			}
+			seen[v.Pointer()] = true
+			// a FileSet grows as files are added; it is not part of the program
+			if v.Type() == reflect.TypeOf((*token.FileSet)(nil)) {
+				h.Write([]byte("fset"))
+				return
+			}
+			walk(v.Elem(), depth+1)
+		case reflect.Interface:
+			if v.IsNil() {
+				h.Write([]byte("niliface"))
+				return
+			}
+			h.Write([]byte(v.Elem().Type().String()))
+			walk(v.Elem(), depth+1)
+		case reflect.Struct:
+			h.Write([]byte(v.Type().String()))
+			for i := 0; i < v.NumField(); i++ {
+				walk(v.Field(i), depth+1)
+			}
+		case reflect.Slice, reflect.Array:
+			fmt.Fprintf(h, "[%d]", v.Len())
+			for i := 0; i < v.Len(); i++ {
+				walk(v.Index(i), depth+1)
+			}
+		case reflect.Map:
+			keys := v.MapKeys()
+			sort.Slice(keys, func(i, j int) bool { return fmt.Sprint(keys[i]) < fmt.Sprint(keys[j]) })
+			fmt.Fprintf(h, "map[%d]", len(keys))
+			for _, k := range keys {
+				fmt.Fprint(h, k)
+				walk(v.MapIndex(k), depth+1)
+			}
+		case reflect.Func:
+			if v.IsNil() {
+				h.Write([]byte("nilfunc"))
+			} else {
+				fmt.Fprintf(h, "func%x", v.Pointer())
+			}
+		case reflect.String:
+			h.Write([]byte(v.String()))
+		case reflect.Bool:
+			fmt.Fprint(h, v.Bool())
+		case reflect.Int, reflect.Int8, reflect.Int16, reflect.Int32, reflect.Int64:
+			fmt.Fprint(h, v.Int())
+		case reflect.Uint, reflect.Uint8, reflect.Uint16, reflect.Uint32, reflect.Uint64, reflect.Uintptr:
+			fmt.Fprint(h, v.Uint())
+		default:
+			fmt.Fprint(h, v.Kind().String())
+		}
+	}
+	walk(reflect.ValueOf(f.prog), 0)
+	return fmt.Sprintf("%016x", h.Sum64())
+}
